@@ -40,3 +40,36 @@ Ltac small_cases :=
   end.
 Ltac meq_cases := unfold meq; intros i j Hi Hj; small_cases.
 Ltac veq_cases := unfold veq; intros i Hi; small_cases.
+
+(** ** Leibniz determinant: sum over all permutations of sign * product of A(i, sigma i). *)
+Section Leibniz.
+  Context {T : Type} (zero one : T) (add mul : T -> T -> T) (opp : T -> T).
+
+  Fixpoint remove_nth {A} (k : nat) (l : list A) : list A :=
+    match l, k with
+    | [], _ => []
+    | _ :: t, 0 => t
+    | h :: t, S k' => h :: remove_nth k' t
+    end.
+
+  (** all permutations of [l] with the parity of their inversion count;
+      picking the k-th remaining element contributes k inversions *)
+  Fixpoint perms (fuel : nat) (l : list nat) : list (list nat * bool) :=
+    match fuel with
+    | 0 => [([], false)]
+    | S f =>
+      flat_map (fun k =>
+        map (fun ps => (nth k l 0 :: fst ps, xorb (snd ps) (Nat.odd k))) (perms f (remove_nth k l)))
+        (seq 0 (length l))
+    end.
+
+  Fixpoint prod_diag (A : nat -> nat -> T) (i : nat) (sigma : list nat) : T :=
+    match sigma with
+    | [] => one
+    | j :: rest => mul (A i j) (prod_diag A (S i) rest)
+    end.
+
+  Definition det_leibniz (n : nat) (A : nat -> nat -> T) : T :=
+    fold_left (fun (acc : T) (ps : list nat * bool) => add acc (if snd ps then opp (prod_diag A 0 (fst ps)) else prod_diag A 0 (fst ps)))
+              (perms n (seq 0 n)) zero.
+End Leibniz.
